@@ -2,13 +2,13 @@
 # usage: refac_eval.sh <worktree> <outdir>  — applies each behaviour-preserving patch and lists NEW alarms
 W=$1; O=$2
 cd $W; git checkout -q -- . ; git clean -fdq
-cd /verif; ./bin/agecheck -repo $W -prop all 2>&1 | grep -v WARNING | grep -A1 '^VIOLATION' | grep '^  ' | sed 's/ at [^ ]* (/ (/' | cut -c1-160 | sort > /tmp/refac_base.txt
+cd /verif; ./bin/agecheck -repo $W -prop all 2>&1 | grep -v WARNING | grep -A1 '^VIOLATION' | grep '^  ' | sed 's/ at [^ ]* (/ (/' | cut -c1-160 | sort -u > /tmp/refac_base.txt
 for n in 1 2 3 4; do
   [ -f $O/$n/patch.diff ] || continue
   cd $W; git checkout -q -- . ; git clean -fdq
   git apply $O/$n/patch.diff || { echo "$O/$n: patch does not apply"; continue; }
   cd /verif; ./bin/agecheck -repo $W -prop all 2>&1 | grep -v WARNING > /tmp/refac_run.txt
-  grep -A1 '^VIOLATION' /tmp/refac_run.txt | grep '^  ' | sed 's/ at [^ ]* (/ (/' | cut -c1-160 | sort > /tmp/refac_new.txt
+  grep -A1 '^VIOLATION' /tmp/refac_run.txt | grep '^  ' | sed 's/ at [^ ]* (/ (/' | cut -c1-160 | sort -u > /tmp/refac_new.txt
   NEW=$(comm -13 /tmp/refac_base.txt /tmp/refac_new.txt | wc -l)
   echo "== $O/$n: $NEW new alarm(s)"
   grep -A1 '^VIOLATION' /tmp/refac_run.txt | grep '^  ' | cut -c1-${REFW:-420} > /tmp/refac_full.txt
